@@ -163,3 +163,8 @@ func SnapStr(label string, v string) { Snaps[label] = strconv.Quote(v) }
 func SameCell(a, b []byte) bool {
 	return unsafe.SliceData(a) == unsafe.SliceData(b)
 }
+
+// HeapSize returns the number of memory cells reachable from v in the symbolic
+// executor's heap model (slice capacities included). Natively it returns 0, so
+// it may only be used in relations that also hold for the constant 0. (intercepted)
+func HeapSize(v any) int { return 0 }
